@@ -414,6 +414,7 @@ def run_op(w, case, classes, call, regs, op):
         names = [f['name'] for f in merged_fields(case, c)]
         if code == 0:
             regs.append((c, res))
+            CUR['ever'].append((c, res))
             if type(res) is not classes[c]:
                 viol.append({'clause': 'constructor returns an instance of the class', 'op': op})
             return [0] + J[j0:] + [-3, case['classes'][c]['id']] + w.show_fields(res, names), viol
@@ -443,6 +444,7 @@ def run_op(w, case, classes, call, regs, op):
                              'outcome': code, 'init_false_fields': [f['name'] for f in fields if not f['init']]})
             return [code] + J[j0:] + [-3, unchanged], viol
         regs.append((c, res))
+        CUR['ever'].append((c, res))
         obs = [0] + J[j0:] + [-3, case['classes'][c]['id'] if type(res) is classes[c] else -9] + w.show_fields(res, names)
         if type(res) is not type(orig):
             viol.append({'clause': f'{meth} returns an instance of the same class', 'got': type(res).__name__, 'want': type(orig).__name__})
@@ -488,8 +490,29 @@ def run_op(w, case, classes, call, regs, op):
         unrep = [fname(f['name']) for f in fields if f['init'] and f['name'] not in given]
         o_vals = [getattr(orig, fname(n)) for n in names if hasattr(orig, fname(n))]
         m_vals = [getattr(res, a) for a in unrep if hasattr(res, a)]
-        shared = len(set(w.reach_mutable(o_vals)) & set(w.reach_mutable(m_vals)))
-        return obs + [-5] + same_orig + [-5] + same_kw + [-5, shared, unchanged], viol
+        mine_mut = set(w.reach_mutable(m_vals))
+        shared = len(set(w.reach_mutable(o_vals)) & mine_mut)
+
+        def field_values(inst):
+            return [getattr(inst, fname(f['name'])) for f in merged_fields(case, inst_cls) if hasattr(inst, fname(f['name']))]
+        # history: instances made earlier in this run (registers of the current sequence), other than the receiver
+        o2 = []
+        for rr in regs[:-1]:
+            if rr is not None and rr[1] is not orig:
+                inst_cls = rr[0]
+                o2 += field_values(rr[1])
+        shared_others = len(set(w.reach_mutable(o2)) & mine_mut)
+        if kind == 'deep':
+            # ... and every instance the worker has seen in this case (all branches): a deep copy hands out fresh objects
+            ever = []
+            for inst_cls, inst in CUR['ever']:
+                if inst is not orig and inst is not res:
+                    ever += field_values(inst)
+            stale = set(w.reach_mutable(ever)) & mine_mut
+            if stale:
+                viol.append({'clause': 'deep_copy_with: the un-replaced fields hold freshly made mutable objects '
+                                       '(not the objects an earlier copy holds)', 'shared_with_earlier_instances': len(stale)})
+        return obs + [-5] + same_orig + [-5] + same_kw + [-5, shared, unchanged, shared_others], viol
     if kind == 'validate':
         r = reg(op[1])
         if r is None:
@@ -597,7 +620,7 @@ def run_case(case):
         tok_class.append(ann_class[id(a)])
     J = []
     CUR.clear()
-    CUR.update({'J': J, 'ann_class': ann_class, 'keep': anns})
+    CUR.update({'J': J, 'ann_class': ann_class, 'keep': anns, 'ever': []})
     env = {'J': J}
     for k, a in enumerate(anns):
         env[f'ANN_{k}'] = a
